@@ -98,6 +98,18 @@ CHECKS = [
      "validating threads (call granularity; line granularity bound 1), gives each consumer exactly the errors of the "
      "reference-free equivalent schema and leaves its resolver's scope untouched.",
      "preemption at Python call/line boundaries only; GIL-atomic container operations assumed", "5 C18"),
+    ("C19", "model_checking", "exhaustive enumeration of CLI configurations (instance lists as folded histories) vs. a fold model; real subprocesses for the exit status",
+     "Every combination of schema-file state x instance lists of length 0-3 (stdin for length 0) x output mode x error format "
+     "x --validator x --base-uri (22.7k configurations through cli.run, 323 real `python -m jsonschema` processes as a "
+     "strength-2 covering array) matches a fold over the list using the library's own iter_errors: exit status, stderr "
+     "markers in order, one diagnostic per bad file, stdout success headers, every instance processed.",
+     "wording of built-in templates is not pinned (markers and counts only); subprocess half is a covering array in the quick tier", "5 C19"),
+    ("C20", "model_checking", "exhaustive enumeration of $schema spellings x bodies x entry points vs. a dict model; explicit-state exploration of registration histories",
+     "55 $schema spellings x 21 draft-discriminating bodies x 11 instances through validator_for / validate / cli.run follow the "
+     "documented selection rule (registered id with or without '#', absent or boolean -> default, unknown -> latest + "
+     "DeprecationWarning; explicit class wins; validate == best_match of the selected class); all registration histories to "
+     "depth 3 (585) keep the whole $schema table consistent with a last-registration-wins dict model; registries restored.",
+     "spellings that urlsplit normalises beyond the property's words (trailing '?', upper-case host) are kept out of the alphabet; one open known finding (whitespace/control characters)", "5 C20"),
 ]
 
 
